@@ -2,7 +2,7 @@
    Statements only (copied from the lemma libraries); every proof is a bare
    `exact`; see the cited files in coq/proofs for the proofs. *)
 From Coq Require Import List NArith ZArith Bool Arith Sorting.Sorted Sorting.Permutation.
-From D2P Require Import Str Err Xml TableTypes Tables Fmt Bullets Merge Collector Walk Paths Package Content ShapeFacts TokFacts FrameFacts BulletsFacts GridFacts OptionFacts.
+From D2P Require Import Str Err Xml TableTypes Tables Fmt Bullets Merge Collector Walk Paths Package Content ShapeFacts TokFacts FrameFacts BulletsFacts GridFacts OptionFacts ProjFacts.
 Import ListNotations.
 Local Open Scope nat_scope.
 
@@ -47,3 +47,35 @@ Theorem C19_images_option_free :
             /\ zread a (f_path f) = Some (MRaw id).
 Proof. exact images_sound. Qed.
 Print Assumptions C19_images_option_free.
+
+(* for EVERY element tree: the html=True and html=False extractions of it have the same nesting shape (hence paragraph count), the same list counters, caret and lineage register, and the same comment-range ids *)
+Theorem C19_html_changes_only_strings :
+  forall v t path s sp, styles_ok v ->
+  collect_from v path t = Ok s -> collect_from (plain_env v) path t = Ok sp ->
+  map shape_of (c_tree sp) = map shape_of (c_tree s) /\
+  c_counters sp = c_counters s /\ c_depth sp = c_depth s /\ c_lineage sp = c_lineage s /\
+  map fst (c_ranges sp) = map fst (c_ranges s) /\
+  length (c_open sp) = length (c_open s) /\ length (c_queued sp) = length (c_queued s).
+Proof. exact projection_shape. Qed.
+Print Assumptions C19_html_changes_only_strings.
+
+(* and, paragraph by paragraph, the same element, style, lineage and list position; the strings differ only by formatting tags (and the escapes applied when rendering) *)
+Theorem C19_html_paragraph_fields :
+  forall v t path s sp ps, styles_ok v ->
+  collect_from v path t = Ok s -> collect_from (plain_env v) path t = Ok sp ->
+  pars_at 4 (c_tree s) = Ok ps ->
+  exists ps', pars_at 4 (c_tree sp) = Ok ps' /\ length ps' = length ps /\
+    forall i p p', nth_error ps i = Some p -> nth_error ps' i = Some p' ->
+      p_elem p' = p_elem p /\ p_copy p' = p_copy p /\ p_style p' = p_style p /\
+      p_lineage p' = p_lineage p /\ p_listpos p' = p_listpos p /\
+      forall rs, par_run_toks p = Ok rs ->
+        exists rs', par_run_toks p' = Ok rs' /\ erase [] (concat rs) = concat rs'.
+Proof. exact projection_paragraphs. Qed.
+Print Assumptions C19_html_paragraph_fields.
+
+(* switching html off never turns a successful extraction into a failing one *)
+Theorem C19_plain_succeeds_when_html_does :
+  forall v t path s, styles_ok v ->
+  collect_from v path t = Ok s -> exists sp, collect_from (plain_env v) path t = Ok sp.
+Proof. exact plain_succeeds. Qed.
+Print Assumptions C19_plain_succeeds_when_html_does.
